@@ -325,7 +325,13 @@ def orbit_registry_extension(ck, tier, seed):
                 ck.case(("orbit-registry", g["orbit"], json.dumps(lab), json.dumps(st, sort_keys=True)), lab[0] != "Init")
     for v in res["results"]:
         g = groups[v["group"]]
-        ck.violation({"clause": "orbit_registry_conformance", "action": v["label"][0], "what": v["problems"][0][0]},
+        kinds = {pr[0] for pr in v["problems"]}
+        # C17 is about the Kepler triple the orbit reports after updates given as a / n / P: a broken triple, or a stored semi-major
+        # axis that is not the one the update stands for, violates it; registry order, signature resolution and clear_state
+        # semantics are specification extension
+        relevant = "kepler" in kinds or (v["label"][0] == "SetA" and bool(kinds & {"sma", "world_property"}))
+        report = ck.violation if relevant else ck.extension
+        report({"clause": "orbit_registry_conformance", "action": v["label"][0], "what": v["problems"][0][0]},
                      "orbit registry (%s orbit) after %s: %s (history: %s)" % (v["orbit"], v["label"], "; ".join("%s: %s" % (a, b[:200]) for a, b in v["problems"][:3]), v["prefix"]),
                      {"kind": "orbit_registry", "orbit": v["orbit"], "behaviour": g["behaviours"][v["behaviour"]][:v["step"] + 1], "problems": v["problems"]})
     neg = drive([dict(groups[0], behaviours=[next(b for b in behs if any(x[0][0] in ("SetE", "SetA") and x[1] != y[1] for x, y in zip(b[1:], b)))])], sabotage=True)
